@@ -86,7 +86,7 @@ def g2Codec : Codec Fq2 where
   write a := Fq.toBytes a.c1 ++ Fq.toBytes a.c0
   b := ⟨Fq.ofMont Gen.B_COEFF, Fq.ofMont Gen.B_COEFF⟩
 
-variable {F : Type} [FieldOps F] [DecidableEq F] [SqrtOps F]
+variable {F : Type} [Add F] [Sub F] [Mul F] [Neg F] [Zero F] [One F] [FieldOps F] [DecidableEq F] [SqrtOps F]
 
 def maskFirst (bs : Bytes) (m : UInt8) : Bytes :=
   match bs with
